@@ -209,6 +209,45 @@ def rule_dist(ctx):
     rets = [s for s in g.body if isinstance(s, ast.Return)]
     if len(rets) != 1:
         raise AnalysisError("tunnel_distance: expected one return")
+    # first choice: the whole function evaluated symbolically (any spelling the evaluator understands)
+    raw_t = sp.symbols("p1_deg l1_deg p2_deg l2_deg", real=True)
+    rad_t = dict(zip(raw_t, (p1, l1, p2, l2)))
+
+    def to_rad_t(u):
+        if u in rad_t:
+            return rad_t[u]
+        raise AnalysisError("tunnel_distance: np.radians applied to %s, not to one of the four angles" % u)
+    sym_val = None
+    try:
+        sym_val = Sym(ctx.repo, hooks={"radians": to_rad_t, "deg2rad": to_rad_t, "asarray": lambda u: u, "atleast_1d": lambda u: u, "asanyarray": lambda u: u}) \
+            .block(g.body, dict(zip(g.params, raw_t)), g, 0)
+    except (Unsupported, AnalysisError):
+        sym_val = None
+    if sym_val is not None:
+        if set(sym_val.free_symbols) & set(raw_t):
+            raise AnalysisError("tunnel_distance: an angle is used in degrees (%s)" % sorted(map(str, set(sym_val.free_symbols) & set(raw_t))))
+        Ksym = [x_ for x_ in sym_val.free_symbols if str(x_) == "K_earth_radius"]
+        val2 = sp.expand(sym_val ** 2)
+        if Ksym:
+            val2 = val2.subs(Ksym[0], Re)
+        arc_ = vr / R
+        target = 4 * Re ** 2 * sp.sin(arc_ / 2) ** 2
+        dd = sp.simplify(sp.expand(sp.expand_trig(val2 - sp.expand_trig(target))))
+        okv = dd == 0
+        if not okv:
+            vv_, _ = is_zero(val2 - target)
+            okv = vv_ is True
+        ctx.ob("tunnel_distance == 2 R sin(arc / 2)", okv, "tunnel^2 - 4R^2 sin^2(arc/2) -> %s" % (0 if okv else dd),
+               "the straight line between the two points on the sphere of radius constants.earth_radius", node=g.node, func=g)
+        # shape: the distance is formed component by component (or over the last axis of stacked components), so that arguments of any
+        # broadcastable shape are paired element-wise
+        src_ = str(norm(rets[0].value))
+        stacked = [c_ for c_ in calls_in(g.node, ("column_stack", "sum")) ]
+        ctx.ob("tunnel_distance.elementwise", not stacked, "reductions / stacking in the distance: %s" % ([str(norm(c_))[:50] for c_ in stacked] or "none"),
+               "component-wise sqrt(dx^2 + dy^2 + dz^2): np.column_stack + sum(axis=1) pairs the points of 1-d arguments only (2-d arguments were summed over the wrong axis)",
+               node=rets[0], func=g, witness=None if not stacked else {"lat1.shape": [2, 3], "result.shape": [2], "expected shape": [2, 3]})
+        ctx.models.append({"rule": "C07.dist", "cases": 5})
+        return
     gflow = Flow(g)
     rv = gflow.resolve(rets[0].value, at=rets[0], depth=4, stop=tuple(g.params))
     from ..calls import bind_args
@@ -237,6 +276,9 @@ def rule_dist(ctx):
     if not v:
         vv, info = is_zero(chord2 - 4 * Re ** 2 * sp.sin(arc / 2) ** 2)
         v = vv is True
+    ctx.ob("tunnel_distance.elementwise", False, "distance formed with %s" % shape_txt[:80],
+           "component-wise sqrt(dx^2 + dy^2 + dz^2): np.column_stack + sum(axis=1) pairs the points of 1-d arguments only (2-d arguments were summed over the wrong axis)",
+           node=rets[0], func=g, witness={"lat1.shape": [2, 3], "result.shape": [2], "expected shape": [2, 3]})
     ctx.ob("tunnel_distance == 2 R sin(arc / 2)", v and t_ok, "tunnel = %s; chord^2 - 4R^2 sin^2(arc/2) -> %s" % (norm(rets[0].value) if rets else None, diff if not v else 0),
            "the straight line between the two points on the sphere of radius constants.earth_radius", node=g.node, func=g)
     ctx.models.append({"rule": "C07.dist", "cases": 5})
@@ -302,6 +344,71 @@ def rule_tol(ctx):
             tol = fold(cmp_.comparators[0])
         except AnalysisError:
             tol = None
+    # (a) definite assignment: the results are assigned inside the loop only, so the loop has to be entered for EVERY start value.  With
+    #     `while any(|B - B0| > tol)` that needs a previous-iterate variable that cannot equal the first guess: +-inf (a finite
+    #     constant such as np.ones() coincides with the first guess at exactly that latitude) - or results that are (re)assigned
+    #     after the loop.
+    flow = Flow(f)
+    lp = loop[0]
+    assigned_in = {n_.id for st_ in lp.body for n_ in ast.walk(st_) if isinstance(n_, ast.Name) and isinstance(n_.ctx, ast.Store)}
+    after = []
+    blk = None
+    par_ = parent(lp)
+    for fld in ("body", "orelse"):
+        b_ = getattr(par_, fld, None)
+        if isinstance(b_, list) and any(x is lp for x in b_):
+            blk = b_
+    after = blk[[i_ for i_, x in enumerate(blk) if x is lp][0] + 1:] if blk else []
+    rets_ = [r_ for r_ in flow.stmts if isinstance(r_, ast.Return) and r_.value is not None]
+    used_after = {n_.id for st_ in list(after) + rets_ for n_ in ast.walk(st_) if isinstance(n_, ast.Name) and isinstance(n_.ctx, ast.Load)}
+    stored_after = set()
+    needs = set()
+    for st_ in after:
+        for n_ in ast.walk(st_.value if isinstance(st_, ast.Assign) else st_):
+            if isinstance(n_, ast.Name) and isinstance(n_.ctx, ast.Load) and n_.id in assigned_in and n_.id not in stored_after:
+                needs.add(n_.id)
+        if isinstance(st_, ast.Assign):
+            stored_after |= {n_.id for t_ in st_.targets for n_ in ast.walk(t_) if isinstance(n_, ast.Name)}
+    for r_ in rets_:
+        for n_ in ast.walk(r_):
+            if isinstance(n_, ast.Name) and isinstance(n_.ctx, ast.Load) and n_.id in assigned_in and n_.id not in stored_after:
+                needs.add(n_.id)
+    # names that have a definition before the loop on this path are fine (they are defined even when the loop is skipped)
+    undefined = sorted(n_ for n_ in needs if all(d_ != "param" and any(d_ is x for x in ast.walk(lp)) for d_ in flow.defs(n_, lp.body[0])) or not flow.defs(n_, lp))
+    undefined = [n_ for n_ in undefined if not [d_ for d_ in flow.defs(n_, lp) if d_ == "param" or not any(d_ is x for x in ast.walk(lp))]]
+    entered = None
+    if cmp_ is not None and undefined:
+        # previous-iterate variable: the operand of the difference that is initialised before the loop by a constant fill
+        diff_names = [n_.id for n_ in ast.walk(cmp_.left) if isinstance(n_, ast.Name)]
+        for nm_ in diff_names:
+            for d_ in flow.defs(nm_, lp):
+                if isinstance(d_, ast.Assign) and not any(d_ is x for x in ast.walk(lp)):
+                    v_ = str(norm(d_.value))
+                    if "np.inf" in v_ or "float('inf')" in v_ or "math.inf" in v_:
+                        entered = (True, v_)
+                    elif any(k_ in v_ for k_ in ("np.ones", "np.zeros", "np.full", "np.empty")) and not any(isinstance(x, ast.Name) and x.id in f.params for x in ast.walk(d_.value) if not isinstance(parent(x), ast.Attribute)):
+                        entered = entered or (False, v_)
+        if entered is None:
+            raise AnalysisError("cart2geodetic: whether the iteration is always entered could not be decided (results %s exist only after a first pass)" % undefined)
+    ctx.ob("cart2geodetic.loop_entered", not undefined or (entered is not None and entered[0]),
+           "assigned only inside the loop and used after it: %s; previous iterate starts as %s" % (undefined or "nothing", entered[1] if entered else "-"),
+           "the first pass always runs (previous iterate starts at infinity), or nothing is used that only the loop assigns - a finite start value equals the "
+           "first guess at one latitude (np.ones: geocentric latitude of exactly 1 rad) and the function fails with UnboundLocalError",
+           node=lp, func=f, witness=None if (not undefined or (entered and entered[0])) else {"geocentric latitude": "1 rad = 57.29577951308232 deg", "raises": "UnboundLocalError: h"})
+    # (b) the values returned belong to the NEWEST iterate (the variable the loop body assigns last), not to the copy of the previous one
+    last_assigned = None
+    for st_ in lp.body:
+        if isinstance(st_, ast.Assign) and isinstance(st_.targets[0], ast.Name):
+            last_assigned = st_.targets[0].id
+    lat_src = None
+    for st_ in after:
+        if isinstance(st_, ast.Assign) and calls_in(st_.value, "rad2deg"):
+            lat_src = [n_.id for n_ in ast.walk(st_.value) if isinstance(n_, ast.Name) and n_.id in assigned_in]
+    if last_assigned is None or lat_src is None:
+        raise AnalysisError("cart2geodetic: the latitude returned after the iteration was not found")
+    ctx.ob("cart2geodetic.iteration.result", lat_src == [last_assigned], "latitude returned from %s; newest iterate is %s" % (lat_src, last_assigned),
+           "the latitude (and the height recomputed from it) of the newest iterate: the previous one lags by up to the tolerance, which the pole amplifies to centimetres in h",
+           node=lp, func=f)
     ctx.assume("the geodetic fixed-point map contracts with factor ~ e^2 <= 0.0118 for the offered models, so the error after stopping is <= e^2/(1-e^2) * tol")
     ctx.ob("cart2geodetic.tolerance", tol is not None and 0 < tol <= 1.2e-7, "stop criterion |B - B0| > %s rad" % tol, "0 < tol <= 1.2e-7 rad (keeps the error below 1.5e-9 rad = 1 cm at the surface)",
            node=loop[0], func=f)
